@@ -17,6 +17,25 @@ class TLCError(RuntimeError):
     pass
 
 
+def _sweep_stale() -> None:
+    """Remove scratch directories left behind by runs whose process was killed (disk is limited)."""
+    tmp = tempfile.gettempdir()
+    try:
+        names = os.listdir(tmp)
+    except OSError:
+        return
+    for n in names:
+        m = re.match(r"verif-[a-z]+-(\d+)-", n)
+        if m and not os.path.exists("/proc/" + m.group(1)):
+            shutil.rmtree(os.path.join(tmp, n), ignore_errors=True)
+
+
+def scratch_dir(kind: str) -> str:
+    """A fresh scratch directory named after the owning process, so that leftovers of killed runs can be swept."""
+    _sweep_stale()
+    return tempfile.mkdtemp(prefix="verif-%s-%d-" % (kind, os.getpid()))
+
+
 def run_tlc(
     module: str,
     cfg_text: Optional[str] = None,
@@ -29,7 +48,7 @@ def run_tlc(
     heap: str = "8g",
 ) -> Dict[str, Any]:
     """Run TLC on spec/<module>.tla with the given config text (or file)."""
-    scratch = tempfile.mkdtemp(prefix="verif-tlc-")
+    scratch = scratch_dir("tlc")
     try:
         if cfg_text is not None:
             cfg_path = os.path.join(scratch, module + ".cfg")
@@ -37,7 +56,7 @@ def run_tlc(
                 f.write(cfg_text)
         else:
             cfg_path = os.path.join(SPEC_DIR, cfg_file or (module + ".cfg"))
-        cmd = ["java", "-XX:+UseParallelGC", f"-Xmx{heap}"] + (java_opts or []) + [
+        cmd = ["java", "-XX:+UseParallelGC", f"-Xmx{heap}", "-Djava.io.tmpdir=" + scratch] + (java_opts or []) + [
             "-cp", JAR, "tlc2.TLC", "-workers", str(workers), "-metadir", os.path.join(scratch, "meta"),
             "-noGenerateSpecTE", "-config", cfg_path,
         ] + (extra or []) + [os.path.join(SPEC_DIR, module + ".tla")]
